@@ -184,7 +184,10 @@ func (s *JavaFullListener) EnterClassDeclaration(ctx *parser.ClassDeclarationCon
 func (s *JavaFullListener) EnterInterfaceDeclaration(ctx *parser.InterfaceDeclarationContext) {
 	hasEnterClass = true
 	currentType = "Interface"
-	currentNode.NodeName = ctx.Identifier().GetText()
+	// the enclosing type of the default and static methods of the interface: their unqualified
+	// calls are calls on it
+	currentClz = ctx.Identifier().GetText()
+	currentNode.NodeName = currentClz
 
 	if ctx.EXTENDS() != nil {
 		types := ctx.TypeList(0).(*parser.TypeListContext).AllTypeType()
